@@ -143,6 +143,24 @@ func (c01) Gen(tier string, seed int64) []fw.Unit {
 			add("special", []byte(s), int64(r.Intn(4)), mode)
 		}
 	}
+	us = append(us, collideUnits(r, "qr", "qr", printAB, 24, 1, 0)...)
+	us = append(us, collideUnits(r, "qr", "qr", digitsAB, 30, 0, 1)...)
+	lim := 250
+	if tier == "thorough" {
+		lim = 0
+	}
+	us = append(us, qrPairUnits(r, "qrpair:qr", lim)...)
+	// runes above U+00FF whose low byte is a character of the alphanumeric set
+	for _, base := range []rune{0x100, 0x200, 0x1000, 0x10000} {
+		for _, low := range "0A9Z $%*+-./:" {
+			s := "AB" + string(base+low) + "12"
+			for mode := int64(0); mode < 4; mode++ {
+				add("truncating-runes", []byte(s), int64(r.Intn(4)), mode)
+			}
+			add("truncating-runes", []byte("GDA"+string(base+low)+"SK 2024"), int64(r.Intn(4)), 0)
+			add("truncating-runes", []byte("123"+string(base+low)), int64(r.Intn(4)), 0)
+		}
+	}
 	// mask hunting: short contents varied until all 8 masks tend to appear
 	for i := 0; i < 120; i++ {
 		add("mask-variety", randBytes(r, 1+r.Intn(14), pick(r, classes)), int64(i%4), int64(r.Intn(4)))
@@ -155,6 +173,9 @@ func (c01) Gen(tier string, seed int64) []fw.Unit {
 func qrObserve(c *fw.Ctx, req Req) (*refdec.QRResult, bool) {
 	inner := req.String()
 	c.Step(func() string { return inner })
+	if c.Res().Evals%5 == 0 {
+		poison("qr", false)
+	}
 	o := req.call()
 	if !wellFormed(c, req.entryName(), inner, &o) {
 		if o.err != nil {
@@ -182,7 +203,22 @@ func qrObserve(c *fw.Ctx, req Req) (*refdec.QRResult, bool) {
 }
 
 func (p c01) Exec(c *fw.Ctx, u *fw.Unit) {
-	req := reqOfUnit(u)
+	if isCollide(u) {
+		for _, q := range splitCollide(u) {
+			p.one(c, q, u.Tag)
+		}
+		return
+	}
+	if u.Fn == "qrpair:qr" {
+		for _, q := range qrPairReqs(u) {
+			p.one(c, q, u.Tag)
+		}
+		return
+	}
+	p.one(c, reqOfUnit(u), u.Tag)
+}
+
+func (p c01) one(c *fw.Ctx, req Req, tag string) {
 	c.Eval()
 	res, ok := qrObserve(c, req)
 	if !ok {
@@ -215,7 +251,7 @@ func (p c01) Exec(c *fw.Ctx, u *fw.Unit) {
 	}
 	c.CoverN("remainder_bits", res.RemainderBits)
 	c.CoverN("terminator_len", res.TerminatorLen)
-	c.Cover("tag", u.Tag)
+	c.Cover("tag", tag)
 	if res.PadCodewords == 0 {
 		c.Cover("pad", "none")
 	} else if res.PadCodewords%2 == 1 {
@@ -226,4 +262,87 @@ func (p c01) Exec(c *fw.Ctx, u *fw.Unit) {
 	if c.Rand().Intn(40) == 0 {
 		c.Sample(map[string]any{"content": short(string(req.S)), "len": len(req.S), "level": req.int(0), "mode": req.int(1), "version": res.Version, "mask": res.Mask, "blocks": res.NumBlocks})
 	}
+}
+
+// qrBits is the number of content bits of n characters in the (internal) mode.
+func qrBits(mode, n int) int {
+	switch mode {
+	case 1:
+		b := n / 3 * 10
+		if n%3 == 1 {
+			b += 4
+		} else if n%3 == 2 {
+			b += 7
+		}
+		return b
+	case 2:
+		return n/2*11 + n%2*6
+	}
+	return 8 * n
+}
+
+type qrPair struct {
+	lvl            int
+	modeA, nA      int
+	modeB, nB      int
+}
+
+// qrEqualBitPairs: two contents in different modes with exactly the same number of
+// content bits, around every version boundary.  State that is keyed by the bit count
+// but not by the mode (or level) shows when they are encoded back to back.
+func qrEqualBitPairs() []qrPair {
+	var out []qrPair
+	modes := []int{1, 2, 4}
+	perChar := map[int]float64{1: 10.0 / 3, 2: 5.5, 4: 8}
+	for lvl := 0; lvl < 4; lvl++ {
+		for v := 1; v <= 40; v++ {
+			for _, mx := range modes {
+				for _, d := range []int{-1, 0, 1} {
+					nx := refdec.QRCapacity(mx, v, lvl) + d
+					if nx < 1 {
+						continue
+					}
+					b := qrBits(mx, nx)
+					for _, my := range modes {
+						if my == mx {
+							continue
+						}
+						guess := int(float64(b) / perChar[my])
+						for ny := guess - 3; ny <= guess+3; ny++ {
+							if ny >= 1 && qrBits(my, ny) == b {
+								out = append(out, qrPair{lvl, mx, nx, my, ny})
+							}
+						}
+					}
+				}
+			}
+		}
+	}
+	return out
+}
+
+func qrPairUnits(r *rand.Rand, fn string, limit int) []fw.Unit {
+	ps := qrEqualBitPairs()
+	r.Shuffle(len(ps), func(i, j int) { ps[i], ps[j] = ps[j], ps[i] })
+	if limit > 0 && len(ps) > limit {
+		ps = ps[:limit]
+	}
+	var us []fw.Unit
+	for _, p := range ps {
+		us = append(us, fw.U(fn, nil, "equal-bit-count-pair", int64(p.lvl), int64(p.modeA), int64(p.nA), int64(p.modeB), int64(p.nB), r.Int63()))
+	}
+	return us
+}
+
+// qrPairReqs expands a pair unit into its two requests.
+func qrPairReqs(u *fw.Unit) [2]Req {
+	r := rngFor(u.Int(5), "qrpair")
+	mk := func(mode, n int) Req {
+		lm := qrModeOfInternal(mode)
+		if r.Intn(3) == 0 {
+			lm = 0
+		}
+		return Req{Fam: "qr", S: qrForced(r, mode, n), I: []int64{u.Int(0), lm}, Scheme: -1}
+	}
+	return [2]Req{mk(int(u.Int(1)), int(u.Int(2))), mk(int(u.Int(3)), int(u.Int(4)))}
 }
